@@ -66,11 +66,12 @@ class Ctor(AV):
 
 
 class Opq(AV):
-    def __init__(self, text):
+    def __init__(self, text, unk=False):
         self.text = text
+        self.unk = unk      # the expression is of a shape the interpreter does not model (as opposed to a free input)
 
     def __repr__(self):
-        return "<%s>" % self.text
+        return "<%s%s>" % ("?!" if self.unk else "", self.text)
 
 
 def strip_ver(s):
@@ -78,9 +79,10 @@ def strip_ver(s):
 
 
 class Path:
-    __slots__ = ("env", "conds", "ver", "trace")
+    __slots__ = ("env", "conds", "ver", "trace", "unk")
 
     def __init__(self):
+        self.unk = []       # conditions taken both ways because their value has an unmodelled shape: outcomes on this path prove nothing
         self.env = {}
         self.conds = []     # (atom text, truth)
         self.ver = {}       # attribute text -> version
@@ -92,6 +94,7 @@ class Path:
         p.conds = list(self.conds)
         p.ver = dict(self.ver)
         p.trace = list(self.trace)
+        p.unk = list(self.unk)
         return p
 
     def atoms(self, strip=True):
@@ -106,7 +109,9 @@ class Path:
 
 CMP = {ast.Eq: lambda a, b: a == b, ast.NotEq: lambda a, b: a != b, ast.In: lambda a, b: a in b,
        ast.NotIn: lambda a, b: a not in b, ast.Lt: lambda a, b: a < b, ast.Gt: lambda a, b: a > b,
-       ast.LtE: lambda a, b: a <= b, ast.GtE: lambda a, b: a >= b}
+       ast.LtE: lambda a, b: a <= b, ast.GtE: lambda a, b: a >= b,
+       ast.Is: lambda a, b: (a is b) if (a is None or b is None or isinstance(a, bool) or isinstance(b, bool)) else (a == b and type(a) is type(b)),
+       ast.IsNot: lambda a, b: not ((a is b) if (a is None or b is None or isinstance(a, bool) or isinstance(b, bool)) else (a == b and type(a) is type(b)))}
 ARITH = {ast.Add: int.__add__, ast.Sub: int.__sub__, ast.BitOr: int.__or__, ast.BitAnd: int.__and__, ast.Mult: int.__mul__,
          ast.LShift: int.__lshift__, ast.RShift: int.__rshift__}
 
@@ -175,9 +180,17 @@ class Outcome:
         return getattr(self.node, "lineno", 0)
 
 
+_PATHLIKE = re.compile(r"^[A-Za-z_]\w*(@\d+)?(\.[A-Za-z_]\w*(@\d+)?)+(\(\))?$")
+
+
+def _const_like(name):
+    """an UPPER_CASE name that did not fold: a constant of the program the interpreter failed to evaluate, not a free input"""
+    return len(name) > 1 and name.isupper()
+
+
 class Interp:
     def __init__(self, fn_node, consts=None, maxpaths=20000, sym_attrs=(), init_env=None, hooks=None, universes=None,
-                 sub_bases=(), call_syms=None, call_ctors=(), inline=None, loop_summary=False, resolver=None):
+                 sub_bases=(), call_syms=None, call_ctors=(), inline=None, loop_summary=False, resolver=None, alias_paths=False, strict_unknown=True):
         """sym_attrs: attribute-text suffixes to be treated as Lin symbols (e.g. '_sz')."""
         self.fn = fn_node
         self.results = []
@@ -193,12 +206,20 @@ class Interp:
         self.call_ctors = set(call_ctors)  # call func texts abstracted as Ctor('call:<f>', args)
         self.inline = inline or {}         # 'self.name' -> FunctionDef, interpreted at the call site
         self.fresh = 0
+        self.strict_unknown = strict_unknown   # run() refuses (PathCap) when a branch was taken both ways on a value of unmodelled shape; callers that judge per path pass False
+        self.alias_paths = alias_paths     # spell a local that names an access path by that path in atoms and opaque texts
         self.loop_summary = loop_summary   # summarise counted loops: v_after = v_before + N * delta, stores become ranges
         self.resolver = resolver           # call node -> (FunctionDef, [param names]) of a repository helper, for folding calls with constant arguments
 
     # ---- helpers
     def key(self, p, node):
         t = U(node)
+        # a local that merely names an access path / a call on one (value = self.value; n = value.int) is spelled by what it names,
+        # so that facts about the same quantity read alike whichever way the code reaches it
+        for nm in {x.id for x in ast.walk(node) if isinstance(x, ast.Name)} if (self.alias_paths and not isinstance(node, ast.stmt)) else ():
+            v = p.env.get(nm)
+            if isinstance(v, Opq) and not v.unk and v.text != nm and _PATHLIKE.match(v.text):
+                t = re.sub(r"(?<![\w.@])%s(?![\w@(])" % re.escape(nm), lambda m_: v.text, t)
         if p.ver:
             for a in sorted(p.ver, key=len, reverse=True):
                 if a in t:
@@ -225,7 +246,7 @@ class Interp:
                 return [(p, p.env[n.id])]
             if n.id in self.consts:
                 return [(p, Const(self.consts[n.id]))]
-            return [(p, Opq(n.id))]
+            return [(p, Opq(n.id, unk=_const_like(n.id)))]
         if isinstance(n, ast.Attribute):
             t = U(n)
             if t in p.env:
@@ -239,7 +260,7 @@ class Interp:
             for suf in self.sym_attrs:
                 if t.endswith(suf):
                     return [(p, Lin({t.split(".")[-1]: 1}))]
-            return [(p, Opq(self.key(p, n)))]
+            return [(p, Opq(self.key(p, n), unk=_const_like(n.attr)))]
         if isinstance(n, ast.IfExp):
             out = []
             for q, t in self.cond(p, n.test):
@@ -338,6 +359,13 @@ class Interp:
                         finally:
                             self._depth -= 1
                         return res
+            if self.resolver is not None and f not in self.call_syms and f not in self.call_ctors and f not in self.inline \
+                    and getattr(self, "_depth", 0) < 3:
+                r = self.resolver(n)
+                if r is not None:
+                    got = self.interpret_callee(p, n, r[0], r[1])
+                    if got is not None:
+                        return got
             if f in self.call_syms:
                 self.fresh += 1
                 return [(p, Opq("%s%d" % (self.call_syms[f], self.fresh)))]
@@ -382,10 +410,47 @@ class Interp:
                     outs = nxt
                 if outs and all(any(isinstance(x, Ctor) for x in args) for q, args in outs):
                     return [(q, Ctor("meth:" + n.func.attr, args, {}, n)) for q, args in outs]
-            return [(p, Opq(self.key(p, n)))]
+            return [(p, Opq(self.key(p, n), unk=self.all_const_call(p, n)))]
         if isinstance(n, ast.Compare) or isinstance(n, ast.BoolOp) or (isinstance(n, ast.UnaryOp) and isinstance(n.op, ast.Not)):
             return [(q, Const(t)) for q, t in self.cond(p, n)]
-        return [(p, Opq(self.key(p, n)))]
+        return [(p, self.fold_else_unknown(p, n))]
+
+    def all_const_call(self, p, n):
+        """a call that reads no free input (receiver and arguments are constants) and still could not be folded: its result is not
+        an unknown of the program but a gap of the interpreter"""
+        exprs = ([n.func.value] if isinstance(n.func, ast.Attribute) else []) + list(n.args) + [k.value for k in n.keywords]
+        if isinstance(n.func, ast.Attribute) and isinstance(n.func.value, ast.Name) and n.func.value.id in ("self", "cls"):
+            exprs = exprs[1:]
+            if not exprs:
+                return False
+        for e in exprs:
+            try:
+                r = self.ev(p, e)
+            except Exception:
+                return False
+            if len(r) != 1 or not isinstance(r[0][1], Const):
+                return False
+            if not isinstance(r[0][1].v, (str, int, float, bytes, tuple, list, dict, set, frozenset, type(None))):
+                return False      # a token that stands for a free input object
+        return True
+
+    def const_env(self, p):
+        env = dict(self.consts)
+        for k, v in p.env.items():
+            if isinstance(v, Const):
+                env[k] = v.v
+            elif not k.startswith("$"):
+                env.pop(k, None)
+        return env
+
+    def fold_else_unknown(self, p, n):
+        """expression kinds the interpreter has no transfer function for (comprehensions, f-strings, lambdas ...):
+        a constant when every name in them is constant, otherwise an opaque of unmodelled shape"""
+        from .consteval import fold
+        try:
+            return Const(fold(n, self.const_env(p)))
+        except Exception:
+            return Opq(self.key(p, n), unk=True)
 
     def fold_call(self, p, n, f):
         from .consteval import fold_body, Raised, NotConst
@@ -426,6 +491,17 @@ class Interp:
                 return [(q, Const(getattr(builtins, n.func.id)(*vals)))]
             except Exception:
                 return None
+        if isinstance(n.func, ast.Name) and n.func.id in ("enumerate", "zip", "range", "reversed", "divmod", "sum", "hex") and not n.keywords:
+            try:
+                import builtins
+                r = getattr(builtins, n.func.id)(*vals)
+                if n.func.id in ("enumerate", "zip", "range", "reversed"):
+                    r = list(r)
+                    if len(r) > 4096:
+                        return None
+                return [(q, Const(r))]
+            except Exception:
+                return None
         if self.resolver is None:
             return None
         r = self.resolver(n)
@@ -457,6 +533,70 @@ class Interp:
             return None
         except Exception:
             return None
+
+    def interpret_callee(self, p, n, fnode, params):
+        """a repository helper called with abstract arguments: its body is interpreted on the caller's state, one continuation per
+        return; its path conditions and its writes to self.* are carried back. None when the call shape is not supported."""
+        if any(k.arg is None for k in n.keywords) or any(isinstance(a, ast.Starred) for a in n.args):
+            return None
+        if fnode.args.vararg or fnode.args.kwarg or fnode.args.kwonlyargs or len(n.args) > len(params):
+            return None
+        if any(isinstance(x, (ast.Yield, ast.YieldFrom, ast.Global, ast.Nonlocal)) for x in ast.walk(fnode)):
+            return None
+        binds = [(p, {})]
+        pairs = list(zip(params, n.args)) + [(k.arg, k.value) for k in n.keywords]
+        if any(k not in params for k, _ in pairs):
+            return None
+        for name, e in pairs:
+            nxt = []
+            for q, b in binds:
+                for q2, v in self.ev(q, e):
+                    b2 = dict(b)
+                    b2[name] = v
+                    nxt.append((q2, b2))
+            binds = nxt
+        defaults = fnode.args.defaults
+        dflt = {}
+        for pname, d in zip(params[len(params) - len(defaults):], defaults):
+            dflt[pname] = d
+        out = []
+        for q, b in binds:
+            env = {k: v for k, v in q.env.items() if k.startswith("self.") or k.startswith("cls.") or k.startswith("$")}
+            for pname in params:
+                if pname in b:
+                    env[pname] = b[pname]
+                elif pname in dflt:
+                    dv = self.ev(q, dflt[pname])
+                    if len(dv) != 1:
+                        return None
+                    env[pname] = dv[0][1]
+                else:
+                    return None
+            sub = Interp(fnode, consts=self.consts, maxpaths=self.maxpaths, sym_attrs=self.sym_attrs, init_env=env, hooks=self.hooks,
+                         universes=self.universes, sub_bases=self.sub_bases, call_syms=self.call_syms, call_ctors=self.call_ctors,
+                         inline=self.inline, loop_summary=self.loop_summary, resolver=self.resolver, alias_paths=self.alias_paths)
+            sub._depth = getattr(self, "_depth", 0) + 1
+            sub.fresh = self.fresh + 1000
+            sub._seed = q
+            try:
+                outcomes = sub.run()
+            except PathCap:
+                raise
+            self.fresh = sub.fresh
+            for o in outcomes:
+                q2 = q.copy()
+                q2.conds = list(o.path.conds)
+                q2.unk = list(o.path.unk)
+                q2.trace = list(o.path.trace)
+                q2.ver = dict(o.path.ver)
+                for k, v in o.path.env.items():
+                    if k.startswith("self.") or k.startswith("cls.") or k.startswith("$"):
+                        q2.env[k] = v
+                if o.kind == "raise":
+                    self.results.append(Outcome("raise", q2, o.value, o.node))
+                else:
+                    out.append((q2, o.value))
+        return out
 
     def do_inline(self, p, f, args, node):
         fn = self.inline[f]
@@ -554,6 +694,25 @@ class Interp:
             return None
         return None
 
+    def unknown_shape(self, p, n):
+        """does the truth of condition n hang on a value of unmodelled shape?"""
+        for sub in ast.walk(n):
+            if isinstance(sub, ast.Name) and "<?!" in repr(p.env.get(sub.id, "")):
+                return True
+            if isinstance(sub, ast.Attribute) and "<?!" in repr(p.env.get(U(sub), "")):
+                return True
+            if isinstance(sub, (ast.ListComp, ast.SetComp, ast.DictComp, ast.GeneratorExp, ast.Lambda, ast.JoinedStr, ast.NamedExpr)):
+                return True
+        for sub in ast.walk(n):
+            if isinstance(sub, ast.Call):
+                try:
+                    vs = self.ev(p, sub)
+                except Exception:
+                    return True
+                if any("<?!" in repr(v) for _, v in vs):
+                    return True
+        return False
+
     def cond(self, p, n):
         if isinstance(n, ast.BoolOp):
             is_or = isinstance(n.op, ast.Or)
@@ -589,13 +748,35 @@ class Interp:
                             return [(p, bool(CMP[type(n.ops[0])](l.v, r.v)))]
                         except Exception:
                             pass
+                    # a computed number / constructed object is never None
+                    for x, y in ((l, r), (r, l)):
+                        if isinstance(y, Const) and y.v is None and isinstance(x, (Bits, Lin)) or (isinstance(x, Ctor) and x.cls[:1].isupper() and isinstance(y, Const) and y.v is None):
+                            if isinstance(n.ops[0], (ast.Is, ast.Eq)):
+                                return [(p, False)]
+                            if isinstance(n.ops[0], (ast.IsNot, ast.NotEq)):
+                                return [(p, True)]
+                    if any(isinstance(x, Bits) and not x.opaque for x in (l, r)):
+                        q1, q2 = p.copy(), p.copy()
+                        atom = self.key(p, n)
+                        for q, t in ((q1, True), (q2, False)):
+                            q.conds.append((atom, t))
+                            q.unk.append(atom)
+                        return [(q1, True), (q2, False)]
+        if not isinstance(n, (ast.Compare, ast.BoolOp, ast.UnaryOp, ast.Name, ast.Attribute, ast.Constant)):
+            vs = self.ev(p, n)
+            if len(vs) == 1 and isinstance(vs[0][1], Const):
+                return [(vs[0][0], bool(vs[0][1].v))]
         atom = self.key(p, n)
         k = self.known(p, atom)
         if k is not None:
             return [(p, k)]
+        unk = self.unknown_shape(p, n)
         a, b = p.copy(), p.copy()
         a.conds.append((atom, True))
         b.conds.append((atom, False))
+        if unk:
+            a.unk.append(atom)
+            b.unk.append(atom)
         ln = getattr(n, "lineno", 0)
         a.trace.append((ln, True))
         b.trace.append((ln, False))
@@ -628,6 +809,14 @@ class Interp:
             return [p]
         p.env[t] = val
         return [p]
+
+    def bind_const(self, q, target, x):
+        if isinstance(target, (ast.Tuple, ast.List)) and isinstance(x, (tuple, list)) and len(x) == len(target.elts) \
+                and not any(isinstance(e, ast.Starred) for e in target.elts):
+            for e, y in zip(target.elts, x):
+                self.bind_const(q, e, y)
+        else:
+            q.env[U(target)] = Const(x)
 
     def run_block(self, paths, stmts):
         for s in stmts:
@@ -702,7 +891,7 @@ class Interp:
             name = U(s.exc.func) if isinstance(s.exc, ast.Call) else (U(s.exc) if s.exc else "reraise")
             self.results.append(Outcome("raise", p, name, s))
             return []
-        if isinstance(s, ast.For):
+        if isinstance(s, ast.For) and not (self.loop_summary and isinstance(s.iter, ast.Call) and U(s.iter.func) == "range"):
             its = self.ev(p, s.iter)
             if len(its) == 1 and isinstance(its[0][1], Const):
                 try:
@@ -714,11 +903,7 @@ class Interp:
                     for x in seq:
                         nxt = []
                         for q in paths:
-                            if isinstance(s.target, (ast.Tuple, ast.List)) and isinstance(x, (tuple, list)) and len(x) == len(s.target.elts):
-                                for e, y in zip(s.target.elts, x):
-                                    q.env[U(e)] = Const(y)
-                            else:
-                                q.env[U(s.target)] = Const(x)
+                            self.bind_const(q, s.target, x)
                             nxt += self.run_block([q], s.body)
                         paths = nxt
                         if len(paths) > self.maxpaths:
@@ -864,9 +1049,19 @@ class Interp:
 
     def run(self):
         p = Path()
+        seed = getattr(self, "_seed", None)
+        if seed is not None:
+            p.conds = list(seed.conds)
+            p.unk = list(seed.unk)
+            p.trace = list(seed.trace)
+            p.ver = dict(seed.ver)
         p.env.update(self.init_env)
         body = self.fn.body
         rest = self.run_block([p], body)
         for q in rest:
             self.results.append(Outcome("fall", q, Const(None), self.fn))
+        if self.strict_unknown and getattr(self, "_depth", 0) == 0:
+            bad = next((o for o in self.results if o.path.unk), None)
+            if bad is not None:
+                raise PathCap("a condition could not be evaluated and is not a free input: `%s`" % strip_ver(bad.path.unk[0])[:80])
         return self.results
